@@ -662,7 +662,10 @@ func syncIndexedDoc(
 		return err
 	}
 
-	if isNewDoc {
+	if isNewDoc && isDeletedDoc {
+		// The merged history both created and deleted the document: there is nothing to index.
+		return nil
+	} else if isNewDoc {
 		return col.indexNewDoc(ctx, doc)
 	} else if isDeletedDoc {
 		return col.deleteIndexedDoc(ctx, oldDoc)
